@@ -262,43 +262,8 @@ func runC12(c *core.Ctx) {
 		}
 	}
 
-	c.Rule("C12.finishhook", "every scalar/node assign of the reflection assembler (bindnode._assembler: AssignNull/Bool/Int/Float/String/Bytes/Link/Node, assignUInt) reaches a possibly-successful return only after consulting its finish hook (the step that commits the entry into the parent map / union) or after delegating to another assign that does", 8)
-	if asmT := p.NamedType("node/bindnode", "_assembler"); asmT != nil {
-		for _, fn := range assignMethodsOf(p, asmT, true) {
-			m := fn.Name()
-			isHook := func(in ssa.Instruction) bool {
-				switch x := in.(type) {
-				case *ssa.UnOp:
-					if fa, ok := x.X.(*ssa.FieldAddr); ok && x.Op == token.MUL && isFinishHookField(fa) {
-						return true
-					}
-				case ssa.CallInstruction:
-					if cal := x.Common().StaticCallee(); cal != nil {
-						n := cal.Name()
-						if (strings.HasPrefix(n, "Assign") || isAssignShaped(p, cal) || n == "Copy") && cal != fn {
-							return true
-						}
-					}
-				}
-				return false
-			}
-			errIdx := core.ErrResultIndex(fn)
-			bad := false
-			var wp []string
-			for _, ret := range core.Returns(fn) {
-				if core.ResultNilness(ret, errIdx) == core.NonNil {
-					continue
-				}
-				if path, reached := core.Reach(fn, nil, successReturn(ret, errIdx), nil, isHook); reached {
-					bad = true
-					wp = p.Witness(path)
-				}
-			}
-			c.Check(!bad, "node/bindnode._assembler."+m+"#finish-hook", p.Pos(fn.Pos()), "every success path consults the finish hook", m+" can return success without running (or delegating to) the finish hook: the value is accepted but never committed into the enclosing map/union", wp...)
-		}
-	} else {
-		c.Undecided("node/bindnode._assembler", "-", "type not found")
-	}
+	c.Rule("C12.finishhook", finishHookText, 10)
+	checkFinishHook(c)
 
 	c.Rule("C12.freshslot", freshSlotText, 6)
 	checkFreshSlot(c)
@@ -504,4 +469,160 @@ func checkClients(c *core.Ctx) {
 			}
 		}
 	}
+}
+
+// checkSlotSetThenFinish extends the finish-hook rule from the assembler's own Assign methods to every function of
+// bindnode that completes a value for an assembler's position: whoever writes the Go value of the slot of a reflection
+// assembler that has a finish hook (reflect.Value.Set* on the value obtained from that assembler's materialiser - the
+// Finish of the map/list wrappers an Any position is filled through, a helper shared by them) consults that hook on
+// every path from the write to a return that can report success.
+func checkSlotSetThenFinish(c *core.Ctx, prop string) {
+	p := c.P
+	n := 0
+	for _, fn := range p.ModFns {
+		pk := core.FuncPkg(fn)
+		if pk == nil || core.RelPkg(pk.Path()) != "node/bindnode" || len(fn.Blocks) == 0 || fn.Synthetic != "" || fn.Parent() != nil {
+			continue
+		}
+		errIdx := core.ErrResultIndex(fn)
+		if errIdx < 0 {
+			continue
+		}
+		// the assembler methods themselves are decided above; here: functions that write somebody else's slot
+		if rcv := fn.Signature.Recv(); rcv != nil {
+			rt := rcv.Type()
+			if pt, ok := rt.(*types.Pointer); ok {
+				rt = pt.Elem()
+			}
+			if nt := namedOfType(rt); nt != nil && hasFinishHookField(nt) {
+				continue
+			}
+		}
+		var sets []ssa.CallInstruction
+		for _, ci := range core.CallsR(fn) {
+			o := core.CalleeObj(ci)
+			if o == nil || !strings.HasPrefix(o.Name(), "Set") || !core.IsMethod(ci, "reflect", "Value", o.Name()) {
+				continue
+			}
+			// the receiver of Set comes out of the materialiser of an assembler that has a finish hook
+			fromSlot := false
+			for w := range core.BackSlice(core.Receiver(ci), core.SliceOpts{ThroughCalls: true, Stores: true}) {
+				cl, ok := w.(*ssa.Call)
+				if !ok || !isValueMaterialiser(p, cl) {
+					continue
+				}
+				if g := cl.Call.StaticCallee(); g != nil {
+					rt := g.Signature.Recv().Type()
+					if pt, ok := rt.(*types.Pointer); ok {
+						rt = pt.Elem()
+					}
+					if nt := namedOfType(rt); nt != nil && hasFinishHookField(nt) {
+						fromSlot = true
+					}
+				}
+			}
+			if fromSlot {
+				sets = append(sets, ci)
+			}
+		}
+		if len(sets) == 0 {
+			continue
+		}
+		isHook := func(in ssa.Instruction) bool {
+			switch x := in.(type) {
+			case *ssa.UnOp:
+				if fa, ok := x.X.(*ssa.FieldAddr); ok && x.Op == token.MUL && isFinishHookField(fa) {
+					return true
+				}
+			case ssa.CallInstruction:
+				if cal := x.Common().StaticCallee(); cal != nil && cal != fn {
+					nm := cal.Name()
+					if strings.HasPrefix(nm, "Assign") || isAssignShaped(p, cal) {
+						return true
+					}
+				}
+			}
+			return false
+		}
+		bad := false
+		var wp []string
+		pos := fn.Pos()
+		for _, st := range sets {
+			for _, ret := range core.Returns(fn) {
+				if core.ResultNilness(ret, errIdx) == core.NonNil {
+					continue
+				}
+				if path, reached := core.Reach(fn, st, successReturn(ret, errIdx), nil, isHook); reached {
+					bad = true
+					wp = p.Witness(path)
+					pos = st.Pos()
+				}
+			}
+		}
+		n++
+		c.Check(!bad, core.FuncKey(fn)+"#slot-set-then-finish", p.Pos(pos), "after writing the assembler's slot every success path consults its finish hook", fn.Name()+" writes the Go value of an assembler's slot and can then return success without running that assembler's finish hook: the value is accepted but never committed into the enclosing map/union", wp...)
+	}
+	if n == 0 {
+		c.Undecided("node/bindnode#slot-writers", "-", "no function outside the assembler writes an assembler's slot through its materialiser (the map/list wrappers for Any positions were expected)")
+	}
+	_ = prop
+}
+
+// hasFinishHookField: the struct has a field of type func() error (the step that commits a finished value into its parent).
+func hasFinishHookField(nt *types.Named) bool {
+	st, ok := nt.Underlying().(*types.Struct)
+	if !ok {
+		return false
+	}
+	for i := 0; i < st.NumFields(); i++ {
+		if sig, ok := st.Field(i).Type().Underlying().(*types.Signature); ok && sig.Params().Len() == 0 && sig.Results().Len() == 1 && core.IsErrorType(sig.Results().At(0).Type()) {
+			return true
+		}
+	}
+	return false
+}
+
+const finishHookText = "every scalar/node assign of the reflection assembler (bindnode._assembler: AssignNull/Bool/Int/Float/String/Bytes/Link/Node, assignUInt) reaches a possibly-successful return only after consulting its finish hook (the step that commits the entry into the parent map / union) or after delegating to another assign that does; and every other function of bindnode that writes the Go value of such an assembler's slot (the Finish of the map/list wrappers an Any position is filled through) consults that hook on every path from the write to a success return"
+
+// checkFinishHook decides the finish-hook rule (shared by C12 - exactly the accepted entries - and C01 - what is built
+// reads back).
+func checkFinishHook(c *core.Ctx) {
+	p := c.P
+	if asmT := p.NamedType("node/bindnode", "_assembler"); asmT != nil {
+		for _, fn := range assignMethodsOf(p, asmT, true) {
+			m := fn.Name()
+			isHook := func(in ssa.Instruction) bool {
+				switch x := in.(type) {
+				case *ssa.UnOp:
+					if fa, ok := x.X.(*ssa.FieldAddr); ok && x.Op == token.MUL && isFinishHookField(fa) {
+						return true
+					}
+				case ssa.CallInstruction:
+					if cal := x.Common().StaticCallee(); cal != nil {
+						n := cal.Name()
+						if (strings.HasPrefix(n, "Assign") || isAssignShaped(p, cal) || n == "Copy") && cal != fn {
+							return true
+						}
+					}
+				}
+				return false
+			}
+			errIdx := core.ErrResultIndex(fn)
+			bad := false
+			var wp []string
+			for _, ret := range core.Returns(fn) {
+				if core.ResultNilness(ret, errIdx) == core.NonNil {
+					continue
+				}
+				if path, reached := core.Reach(fn, nil, successReturn(ret, errIdx), nil, isHook); reached {
+					bad = true
+					wp = p.Witness(path)
+				}
+			}
+			c.Check(!bad, "node/bindnode._assembler."+m+"#finish-hook", p.Pos(fn.Pos()), "every success path consults the finish hook", m+" can return success without running (or delegating to) the finish hook: the value is accepted but never committed into the enclosing map/union", wp...)
+		}
+	} else {
+		c.Undecided("node/bindnode._assembler", "-", "type not found")
+	}
+	checkSlotSetThenFinish(c, "")
 }
